@@ -338,7 +338,7 @@ func runGraphs(t *testing.T) {
 	H.Rule("graphs", "rapid: module graphs of 2–6 files (.mjs ES modules and .cjs CommonJS modules; edges: named/default/namespace/side-effect imports, export-from, export *, export * as, import(), require; import cycles and self-imports; exported var/let/const/function/class/default, live bindings mutated through exported functions, deferred readers, top-level throws, __esModule-flagged CommonJS) × format {esm, cjs, iife+global name} × platform {node, browser, neutral} × minify; oracle: the same tree loaded by Node 20's native ESM/CJS loaders vs the bundle loaded the way its format demands — event sequence (evaluation order, at-most-once), termination, and the entry's exports; non-trivial = ≥2 modules and ≥2 events")
 	H.SetupRapid("graphs", H.N(3000, 200000))
 	rapid.Check(t, func(rt *rapid.T) {
-		g := modgraph.Generate(rt, modgraph.Config{MaxModules: 6, AllowCJS: rapid.Bool().Draw(rt, "cjs"), AllowCycles: rapid.Bool().Draw(rt, "cycles"), AllowDynamic: rapid.Bool().Draw(rt, "dynamic"), AllowThrow: rapid.IntRange(0, 3).Draw(rt, "throw") == 0, MutableLets: rapid.Bool().Draw(rt, "mutable"), ThisOfNamespaceCall: rapid.IntRange(0, 3).Draw(rt, "nscall") == 0})
+		g := modgraph.Generate(rt, modgraph.Config{MaxModules: 6, AllowCJS: rapid.Bool().Draw(rt, "cjs"), AllowCycles: rapid.Bool().Draw(rt, "cycles"), AllowDynamic: rapid.Bool().Draw(rt, "dynamic"), AllowThrow: rapid.IntRange(0, 3).Draw(rt, "throw") == 0, MutableLets: rapid.Bool().Draw(rt, "mutable"), ThisOfNamespaceCall: rapid.IntRange(0, 3).Draw(rt, "nscall") == 0, CollidingLocals: rapid.Bool().Draw(rt, "colliding")})
 		c := Case{Files: g.Files(), Entry: g.Modules[0].Name, Labels: g.Labels}
 		c.Format = rapid.SampledFrom([]string{"esm", "cjs", "iife"}).Draw(rt, "format")
 		c.Platform = rapid.SampledFrom([]string{"node", "browser", "neutral"}).Draw(rt, "platform")
